@@ -33,9 +33,24 @@ type S1 struct{ Inst }
 type S2 struct{ Inst }
 type S3 struct{ Inst } // not disposable
 
-func (s *S0) Close() error { return recClose(s.ID, s.Run) }
-func (s *S1) Close() error { return recClose(s.ID, s.Run) }
-func (s *S2) Close() error { return recClose(s.ID, s.Run) }
+func (s *S0) Close() error {
+	if s == nil {
+		return nil // a typed nil that the container tracked as disposable
+	}
+	return recClose(s.ID, s.Run)
+}
+func (s *S1) Close() error {
+	if s == nil {
+		return nil // a typed nil that the container tracked as disposable
+	}
+	return recClose(s.ID, s.Run)
+}
+func (s *S2) Close() error {
+	if s == nil {
+		return nil // a typed nil that the container tracked as disposable
+	}
+	return recClose(s.ID, s.Run)
+}
 
 type I0 interface{ Tag0() int }
 type I1 interface{ Tag1() int }
